@@ -1469,6 +1469,14 @@ func argFacts(st AtomSet, call ssa.CallInstruction, callee *ssa.Function) map[At
 			continue
 		}
 		for f := range st.m {
+			if strings.HasPrefix(f, "held:") && strings.HasPrefix(from, "*") && strings.HasPrefix(to, "*") {
+				// a mutex of the argument object held at the call is held in the callee
+				loc := f[len("held:"):]
+				if strings.HasPrefix(loc, from[1:]+".") {
+					out[Atom("held:"+to[1:]+loc[len(from)-1:])] = true
+				}
+				continue
+			}
 			if !strings.HasPrefix(f, "v:nn:") {
 				continue
 			}
